@@ -339,11 +339,13 @@ struct CDlistWorld
             {
                 dlist_head *k = &nodes[i]->lnk;
                 VP_CHECK(k->next->prev == k && k->prev->next == k, "c_dlist_symmetry", "n%zu: neighbours do not point back", i);
+                VP_CHECK(dlist_is_linked(k), "c_dlist_is_linked", "dlist_is_linked(n%zu)=0 for a linked node", i);
             }
             else if (st[i] == C_FREE_INIT)
             {
                 dlist_head *k = &nodes[i]->lnk;
                 VP_CHECK(k->next == k && k->prev == k, "c_dlist_selflink", "n%zu was del_init'ed but is not self-linked", i);
+                VP_CHECK(!dlist_is_linked(k), "c_dlist_is_linked", "dlist_is_linked(n%zu)=1 for a del_init'ed node", i);
             }
         }
     }
